@@ -129,10 +129,10 @@ Proof.
                /\ hooks_of (s_tr s1) = hooks_of (s_tr s) ++ [(h, ty_id (c_ty c), tag)]).
   { subst s1. cbn. rewrite hooks_of_app. cbn. repeat split. }
   destruct B1 as (F1 & K1 & E1 & H1).
-  set (s2 := if is_before_save_hook h && memz (s_k s) (c_sets c) then set_column c i (1000 + s_k s) s1 else s1).
+  set (s2 := if (is_before_save_hook h || (x_setafter (c_x c) && is_after_write_hook h)) && memz (s_k s) (c_sets c) then set_column c i (1000 + s_k s) s1 else s1).
   assert (B2 : same_frame s s2 /\ s_k s2 = s_k s + 1 /\ s_err s2 = s_err s
                /\ hooks_of (s_tr s2) = hooks_of (s_tr s) ++ [(h, ty_id (c_ty c), tag)]).
-  { subst s2. destruct (is_before_save_hook h && memz (s_k s) (c_sets c)).
+  { subst s2. destruct ((is_before_save_hook h || (x_setafter (c_x c) && is_after_write_hook h)) && memz (s_k s) (c_sets c)).
     - destruct (set_column_frame c i (1000 + s_k s) s1 W) as (F & K & E & T).
       split; [exact (same_frame_trans _ _ _ F1 F)|].
       split; [congruence|]. split; [congruence|]. rewrite T. exact H1.
